@@ -82,10 +82,49 @@ fn quotas(qn: i64, qe: i64) -> ResourceQuotas {
     q
 }
 
-fn open_pm(dir: &Path, tenant: &str, qn: i64, qe: i64) -> Result<PersistenceManager, String> {
+/// tenants the script registers (Open.ts; the first is the one the generated calls are for)
+fn tenants_of(open: &Value) -> Vec<String> {
+    match open["ts"].as_array() {
+        Some(a) if !a.is_empty() => a.iter().map(|x| x.as_str().unwrap().to_string()).collect(),
+        _ => vec!["t1".to_string()],
+    }
+}
+
+/// calls that give the neighbour tenants their data (Open.seed), executed right after Open
+fn seed_of(open: &Value) -> Vec<Value> {
+    open["seed"].as_array().cloned().unwrap_or_default()
+}
+
+fn open_pm(dir: &Path, tenants: &[String], qn: i64, qe: i64) -> Result<PersistenceManager, String> {
     let pm = PersistenceManager::new(dir).map_err(|e| e.to_string())?;
-    pm.tenants().create_tenant(tenant.to_string(), tenant.to_string(), Some(quotas(qn, qe))).map_err(|e| e.to_string())?;
+    for t in tenants {
+        pm.tenants().create_tenant(t.clone(), t.clone(), Some(quotas(qn, qe))).map_err(|e| e.to_string())?;
+    }
     Ok(pm)
+}
+
+/// recover(t), then recover of every other registered tenant (each is one Recover event)
+fn recover_all(pm: &PersistenceManager, t: &str, tenants: &[String], rep: Option<usize>) -> Vec<Value> {
+    let mut out = Vec::new();
+    for x in std::iter::once(t.to_string()).chain(tenants.iter().filter(|x| x.as_str() != t).cloned()) {
+        let mut ev = recover_obs(pm, &x);
+        ev["ev"] = json!("Recover");
+        ev["t"] = json!(x);
+        if let (Some(r), true) = (rep, x == t) {
+            ev["rep"] = json!(r);
+        }
+        out.push(ev);
+    }
+    out
+}
+
+/// number of trace events a script step stands for
+fn events_of(step: &Value, open: &Value) -> usize {
+    match gs(step, "op") {
+        "Open" => 1 + seed_of(open).len(),
+        "Recover" => tenants_of(open).len(),
+        _ => 1,
+    }
 }
 
 /// one persist_* call through the PersistenceManager API
@@ -174,22 +213,22 @@ fn stored_obs(pm: &PersistenceManager, t: &str) -> Value {
     n.sort();
     e.sort();
     let (un, ue) = usage_of(pm, t);
-    json!({"n": n, "e": e, "un": un, "ue": ue})
+    json!({"t": t, "n": n, "e": e, "un": un, "ue": ue})
 }
 
-/// (kind, id) of every entry in the log for tenant t (after a flush)
-fn wal_obs(pm: &PersistenceManager, dir: &Path, t: &str) -> Value {
+/// (kind, tenant, id) of every entry in the log (after a flush)
+fn wal_obs(pm: &PersistenceManager, dir: &Path) -> Value {
     let _ = pm.flush();
     let mut out = Vec::new();
     if let Ok(w) = Wal::new(dir.join("wal")) {
         let _ = w.replay(0, |e| {
             match e {
-                WalEntry::CreateNode { tenant, node_id, .. } if tenant == t => out.push(json!(["CreateNode", node_id])),
-                WalEntry::CreateEdge { tenant, edge_id, .. } if tenant == t => out.push(json!(["CreateEdge", edge_id])),
-                WalEntry::DeleteNode { tenant, node_id } if tenant == t => out.push(json!(["DeleteNode", node_id])),
-                WalEntry::DeleteEdge { tenant, edge_id } if tenant == t => out.push(json!(["DeleteEdge", edge_id])),
-                WalEntry::UpdateNodeProperties { tenant, node_id, .. } if tenant == t => out.push(json!(["UpdateNode", node_id])),
-                WalEntry::UpdateEdgeProperties { tenant, edge_id, .. } if tenant == t => out.push(json!(["UpdateEdge", edge_id])),
+                WalEntry::CreateNode { tenant, node_id, .. } => out.push(json!(["CreateNode", tenant, node_id])),
+                WalEntry::CreateEdge { tenant, edge_id, .. } => out.push(json!(["CreateEdge", tenant, edge_id])),
+                WalEntry::DeleteNode { tenant, node_id } => out.push(json!(["DeleteNode", tenant, node_id])),
+                WalEntry::DeleteEdge { tenant, edge_id } => out.push(json!(["DeleteEdge", tenant, edge_id])),
+                WalEntry::UpdateNodeProperties { tenant, node_id, .. } => out.push(json!(["UpdateNode", tenant, node_id])),
+                WalEntry::UpdateEdgeProperties { tenant, edge_id, .. } => out.push(json!(["UpdateEdge", tenant, edge_id])),
                 _ => {}
             }
             Ok(())
@@ -252,7 +291,7 @@ fn child_main(args: &[String]) -> ! {
     let mut out = std::fs::OpenOptions::new().create(true).append(true).open(&args[3]).unwrap();
     let steps = script.as_array().unwrap();
     let (qn, qe) = (gi(&steps[0], "qn"), gi(&steps[0], "qe"));
-    let tenant = "t1";
+    let tenants = tenants_of(&steps[0]);
     let mut emit = |v: Value| {
         let mut s = serde_json::to_string(&v).unwrap();
         s.push('\n');
@@ -265,7 +304,7 @@ fn child_main(args: &[String]) -> ! {
             std::process::abort();
         }
     }));
-    let mut pm = match open_pm(&dir, tenant, qn, qe) {
+    let mut pm = match open_pm(&dir, &tenants, qn, qe) {
         Ok(p) => p,
         Err(e) => {
             emit(json!({"ev": "OpenFailed", "msg": e}));
@@ -276,16 +315,21 @@ fn child_main(args: &[String]) -> ! {
     while i < steps.len() {
         let st = &steps[i];
         match gs(st, "op") {
-            "Open" => emit(json!({"ev": "Open", "qn": qn, "qe": qe})),
+            "Open" => {
+                emit(json!({"ev": "Open", "qn": qn, "qe": qe}));
+                for c in seed_of(st) {
+                    let r = do_call(&pm, &c);
+                    emit(call_event(&c, r));
+                }
+            }
             "Recover" => {
-                let mut ev = recover_obs(&pm, gs(st, "t"));
-                ev["ev"] = json!("Recover");
-                ev["t"] = st["t"].clone();
-                emit(ev);
+                for ev in recover_all(&pm, gs(st, "t"), &tenants, None) {
+                    emit(ev);
+                }
             }
             "Restart" => {
                 drop(pm);
-                pm = match open_pm(&dir, tenant, qn, qe) {
+                pm = match open_pm(&dir, &tenants, qn, qe) {
                     Ok(p) => p,
                     Err(e) => {
                         emit(json!({"ev": "OpenFailed", "msg": e}));
@@ -374,7 +418,7 @@ fn run_seq_script(exe: &str, steps: &[Value]) -> Vec<Value> {
                 use std::os::unix::process::ExitStatusExt;
                 let aborted = st.signal() == Some(libc::SIGABRT);
                 // steps from..ci are executed by the child; step ci-1 may be the call the process died in
-                let expected_before = ci - from;
+                let expected_before: usize = (from..ci).map(|k| events_of(&steps[k], &steps[0])).sum();
                 if !aborted {
                     events.push(json!({"ev": "ChildFailed", "status": format!("{st:?}")}));
                     return events;
@@ -414,24 +458,22 @@ fn run_rep_script(steps: &[Value], replicas: usize, rt: &tokio::runtime::Runtime
     for r in 1..=replicas {
         let dir = tempfile::tempdir().unwrap();
         events.push(json!({"ev": "Replica", "r": r}));
-        let mut pm = Arc::new(open_pm(dir.path(), "t1", qn, qe).unwrap());
+        let tenants = tenants_of(&steps[0]);
+        let mut pm = Arc::new(open_pm(dir.path(), &tenants, qn, qe).unwrap());
         let mut sm = GraphStateMachine::new(Arc::clone(&pm));
-        for st in &steps[1..] {
+        let seed = seed_of(&steps[0]);
+        for st in seed.iter().chain(steps[1..].iter()) {
             match gs(st, "op") {
                 "Restart" => {
                     drop(sm);
                     let old = Arc::try_unwrap(pm).ok().expect("state machine still holds the manager");
                     drop(old);
-                    pm = Arc::new(open_pm(dir.path(), "t1", qn, qe).unwrap());
+                    pm = Arc::new(open_pm(dir.path(), &tenants, qn, qe).unwrap());
                     sm = GraphStateMachine::new(Arc::clone(&pm));
                     events.push(json!({"ev": "Restart"}));
                 }
                 "Recover" => {
-                    let mut ev = recover_obs(&pm, gs(st, "t"));
-                    ev["ev"] = json!("Recover");
-                    ev["t"] = st["t"].clone();
-                    ev["rep"] = json!(r);
-                    events.push(ev);
+                    events.extend(recover_all(&pm, gs(st, "t"), &tenants, Some(r)));
                 }
                 _ => {
                     let resp = rt.block_on(sm.apply(request_of(st)));
@@ -535,31 +577,39 @@ struct ConcRun {
     dir: tempfile::TempDir,
     pm: Arc<PersistenceManager>,
     calls: Vec<(usize, Value)>,
+    tenants: Vec<String>,
 }
 
 fn conc_setup(steps: &[Value]) -> (ConcRun, Vec<Value>) {
     let dir = tempfile::tempdir().unwrap();
     let (qn, qe) = (gi(&steps[0], "qn"), gi(&steps[0], "qe"));
-    let pm = Arc::new(open_pm(dir.path(), "t1", qn, qe).unwrap());
+    let tenants = tenants_of(&steps[0]);
+    let pm = Arc::new(open_pm(dir.path(), &tenants, qn, qe).unwrap());
     let mut events = vec![json!({"ev": "Open", "qn": qn, "qe": qe})];
+    // the neighbour tenants get their data before the writers start (this thread is not a worker: no hook fires)
+    for c in seed_of(&steps[0]) {
+        let r = do_call(&pm, &c);
+        events.push(call_event(&c, r));
+    }
     let mut calls = Vec::new();
     for st in steps.iter().filter(|s| gs(s, "op") == "Begin") {
         calls.push((gi(st, "p") as usize, st["call"].clone()));
         events.push(json!({"ev": "Begin", "p": st["p"], "call": st["call"]}));
     }
-    (ConcRun { dir, pm, calls }, events)
+    (ConcRun { dir, pm, calls, tenants }, events)
 }
 
 fn conc_epilogue(run: &ConcRun, events: &mut Vec<Value>) {
-    let mut q = stored_obs(&run.pm, "t1");
-    q["wal"] = wal_obs(&run.pm, run.dir.path(), "t1");
-    events.push(json!({"ev": "Quiesce", "obs": q}));
-    for _ in 0..2 {
-        let mut ev = recover_obs(&run.pm, "t1");
-        ev["ev"] = json!("Recover");
-        ev["t"] = json!("t1");
-        events.push(ev);
-    }
+    // every registered tenant: what a scan returns and what the counters say
+    let per: Vec<Value> = run.tenants.iter().map(|t| stored_obs(&run.pm, t)).collect();
+    events.push(json!({"ev": "Quiesce", "ts": run.tenants, "obs": {"per": per, "wal": wal_obs(&run.pm, run.dir.path())}}));
+    // recover the writers' tenant twice on the same manager, then every neighbour
+    let main = run.tenants[0].clone();
+    let mut ev = recover_obs(&run.pm, &main);
+    ev["ev"] = json!("Recover");
+    ev["t"] = json!(main);
+    events.push(ev);
+    events.extend(recover_all(&run.pm, &main, &run.tenants, None));
 }
 
 #[derive(Clone, PartialEq)]
@@ -571,6 +621,7 @@ enum TState {
 
 struct Conc<'a> {
     pm: &'a PersistenceManager,
+    tenant_of: HashMap<usize, String>,
     rx: Receiver<Msg>,
     state: HashMap<usize, TState>,
     events: Vec<Value>,
@@ -591,7 +642,7 @@ impl<'a> Conc<'a> {
                         o => o,
                     }
                     .to_string();
-                    let mut ev = json!({"ev": "Step", "p": p, "k": k, "pt": pt, "obs": stored_obs(self.pm, "t1")});
+                    let mut ev = json!({"ev": "Step", "p": p, "k": k, "pt": pt, "obs": stored_obs(self.pm, &self.tenant_of[&p])});
                     if k == "chk" {
                         ev["adm"] = json!(true);
                     }
@@ -600,7 +651,7 @@ impl<'a> Conc<'a> {
                 self.state.insert(p, TState::Parked(pt));
             }
             Msg::Finished(p, r) => {
-                let obs = stored_obs(self.pm, "t1");
+                let obs = stored_obs(self.pm, &self.tenant_of[&p]);
                 if self.state.get(&p) == Some(&TState::Running("start".to_string())) {
                     // returned without reaching any point: refused by the quota check
                     self.events.push(json!({"ev": "Step", "p": p, "k": "chk", "adm": false, "obs": obs}));
@@ -648,7 +699,8 @@ fn run_conc_script(steps: &[Value]) -> Vec<Value> {
     *sched().to_sched.lock().unwrap() = Some(tx.clone());
     sched().gates.lock().unwrap().clear();
     HOOK_MODE.store(1, Ordering::SeqCst);
-    let mut c = Conc { pm: &run.pm, rx, state: HashMap::new(), events, timeout: Duration::from_millis(3000) };
+    let tenant_of: HashMap<usize, String> = run.calls.iter().map(|(p, c)| (*p, gs(c, "t").to_string())).collect();
+    let mut c = Conc { pm: &run.pm, tenant_of, rx, state: HashMap::new(), events, timeout: Duration::from_millis(3000) };
     let mut handles = Vec::new();
     for (p, call) in &run.calls {
         let (gtx, grx) = channel::<()>();
